@@ -315,6 +315,30 @@ func (fc *FuncCtx) execCall0(fr *Frame, st *State, site ssa.Instruction, c *ssa.
 		r, _ := fc.intrinsic(fr, st, fn, c, args, pos)
 		return r
 	}
+	if fc.guardMode && fc.guardAcc != nil {
+		for pi, lock := range fc.guardAcc[fn] {
+			if pi < len(args) {
+				pt, isPtr := c.Args[pi].Type().Underlying().(*types.Pointer)
+				if !isPtr {
+					continue
+				}
+				var ref string
+				switch a := args[pi].(type) {
+				case Scalar:
+					ref = a.T
+				case PlaceV:
+					if (a.Kind == "obj" || a.Kind == "cell") && len(a.Path) == 0 {
+						ref = a.RefTerm
+					}
+				}
+				if ref == "" || fc.freshRefs[ref] {
+					continue
+				}
+				key := "L!O!" + typeKey(pt.Elem()) + "." + lock
+				fc.oblige(fr, st, "guard.call."+fn.Name(), "", fc.heldTerm(st, key, ref), pos, fn.Name()+" touches fields guarded by "+lock+" without locking: its caller holds the lock")
+			}
+		}
+	}
 	con := fc.eng.contractForCall(fn, c)
 	fc.atCallClauses(fr, st, site, short, full, extra, pos)
 	fc.bumpCalls(st, short)
@@ -1080,6 +1104,9 @@ func (fc *FuncCtx) execGo(fr *Frame, st *State, x *ssa.Go) {
 	}
 	fc.atCallClauses(fr, st, x, short, full, extra, x.Pos())
 	fc.bumpCalls(st, "go:"+short)
+	if sf := x.Call.StaticCallee(); sf != nil && fc.guardMode && fc.guardAcc != nil && len(fc.guardAcc[sf]) > 0 {
+		fc.oblige(fr, st, "guard.call."+sf.Name(), "", "false", x.Pos(), sf.Name()+" touches guarded fields without locking and is started as a goroutine, which holds no lock")
+	}
 	// the spawned goroutine runs concurrently: everything it may write that is not monitor-protected becomes volatile
 	var fn *ssa.Function
 	switch v := x.Call.Value.(type) {
